@@ -321,6 +321,12 @@ class Ops:
                 return SV(self.ctx.app("ext_add", self.term(a, EXT), self.term(b, EXT)), EXT)
             if op == "-" and kb == "int":
                 return SV(self.ctx.app("ext_sub_int", self.term(a, EXT), self.term(b, INT)), EXT)
+            if op == "-" and kb == "ext":
+                # x - y with y finite (the only case modelled: inf - inf is not a number in infinity.py)
+                bt = self.term(b, EXT)
+                if oblig:
+                    oblig(self.is_fin(bt), "subtrahend is finite (x - inf not modelled)")
+                return SV(self.ctx.app("ext_sub_int", self.term(a, EXT), self.fin_v(bt)), EXT)
             if op == "*":
                 e, i = (a, b) if ka == "ext" else (b, a)
                 et = self.term(e, EXT)
